@@ -42,7 +42,8 @@ def cases(draw, tier):
     what = draw(st.sampled_from(["transform", "transform", "norm", "pa",
                                  "rankdata", "cli"]))
     values = "posdyadic" if what in ("norm", "cli") else \
-        draw(st.sampled_from(["int", "dyadic", "posint", "small"]))
+        draw(st.sampled_from(["int", "dyadic", "posint", "small", "count",
+                              "count"]))
     spec = draw(gen.table_specs(tier, values=values, md=True, history=True))
     case = {"table": spec, "what": what, "axis": draw(ops.AX),
             "inplace": draw(st.booleans()),
